@@ -44,6 +44,10 @@ POSITIONS = {
     'import-href': '@import "i{}.css";',
     'unknown-rule': '@foo {} "{}" url({});',
     'unknown-keyword': '@f{}o bar;',
+    # at-keywords INSIDE an unknown rule are never made into rules: their names are what the tokenizer says
+    'unknown-nested-keyword': '@foo @b{}r x;',
+    'unknown-block-keyword': '@foo {{ @b{}r a b; p {{ color: red }} }}',
+    'unknown-block-content': '@foo {{ x{}: "{}" #h{} .{} f{}(1{}) }}',
     'media-feature-string': '@media print {{ a {{ content: "{}" }} }}',
     'font-face': '@font-face {{ font-family: "{}"; src: url({}.woff) }}',
     'page-margin': '@page {{ @top-left {{ content: "{}" }} }}',
@@ -156,7 +160,8 @@ def run_case(case):
     except UnicodeEncodeError:
         expressible = False
     # (property names and at-keywords are written in their normalised, lower-case form)
-    if expressible and pos not in ('selector-after-escape-friendly-follower', 'property-name', 'unknown-keyword') and \
+    if expressible and pos not in ('selector-after-escape-friendly-follower', 'property-name', 'unknown-keyword', 'unknown-nested-keyword',
+                                'unknown-block-keyword') and \
             planted not in dec:
         return 'the encoding %s has %r but the output does not contain it: %r' % (enc, planted, dec[:120])
     try:
@@ -238,7 +243,7 @@ def gen_cases(tier, seed):
                 cases.append((pos, ch, enc))
     # every codec x a fixed set of positions
     for enc in encs:
-        for pos in ('comment', 'class', 'string-value', 'url-value', 'unknown-keyword'):
+        for pos in ('comment', 'class', 'string-value', 'url-value', 'unknown-keyword', 'unknown-block-keyword'):
             cases.append((pos, 'é→', enc))
     for _ in range(300 if tier == 'quick' else 8000):
         planted = ''.join(rnd.choice(NONASCII + ['a', '1']) for _ in range(rnd.randint(1, 4)))
@@ -273,12 +278,12 @@ def run(tier, seed):
         'modelled_code_line_coverage': coverage_lines,
         'evaluations': res['n'] + resE['n'] + resU['n'],
         'distinct_nontrivial': len(set(cases)) + len(set(ec)) + len(set(uc)),
-        'rule': '19 positions that can hold a non-ASCII character (comment, type/class/id selector, attribute value, property '
+        'rule': '22 positions that can hold a non-ASCII character (comment, type/class/id selector, attribute value, property '
                 'name, identifier / string / URL values, @import href, unknown rule content and keyword, @font-face, margin '
                 'rule, function argument, namespace URI, escape followed by a letter / digit / space) x 16 planted characters '
                 '(Latin-1, Greek, Cyrillic, CJK, arrows, NBSP, soft hyphen, U+2028, astral, U+10FFFF, Arabic) x {ascii, '
                 'iso8859-1, utf-16, a rotating codec}; every ASCII-transparent codec of the installation (%d, enumerated from '
-                'the encodings package and probed) and the UTF-16/32 family x 5 positions; random plantings; checked: bytes '
+                'the encodings package and probed) and the UTF-16/32 family x 6 positions; random plantings; checked: bytes '
                 'decode, start with @charset, expressible characters written as themselves, re-parse without hint detects '
                 'the encoding and gives the same object model' % len(encs),
         'traces_validated_against_impl': resE['n'] + resU['n'],
